@@ -440,7 +440,9 @@ func typeClass(t px.Type, dflt string) string {
 		case px.TypeSet:
 			found["TypeSet"] = true
 		case px.ObjectType:
-			found["Object"] = true
+			if !strings.HasPrefix(x.Name(), "My::P1") && !strings.HasPrefix(x.Name(), "My::P2") && !strings.HasPrefix(x.Name(), "My::P3") {
+				found["Object"] = true
+			}
 		case px.ParameterizedType:
 			n := 0
 			func() {
@@ -666,6 +668,24 @@ const objTypes2 = `type My::Box = Object[{attributes => {items => Array[Any], la
 // My::Lim: attributes whose type accepts undef and whose default is NOT undef (max, unit, ratio, flag), one whose default
 // is undef (note), a non-optional one with a default (tags) and a given_or_derived one (gd): an instance must print every
 // value that differs from the default — an explicit undef included — and may leave out only what equals the default
+// parameterized Object types (type_parameters): one, two and three parameters, own and inherited.  They are defined in every
+// context the harness runs in, so their names ARE loadable: a round-trip failure of `My::Pn[…]` is not excused by the known
+// finding C05-nominal-type (typeClass skips them).
+const objTypesP1 = `type My::P1 = Object[{type_parameters => {a => Integer}, attributes => {a => Integer}}]`
+const objTypesP2 = `type My::P2 = Object[{type_parameters => {from => Integer, unit => String}, attributes => {from => Integer, unit => {type => String, value => 'm'}}}]`
+const objTypesP3 = `type My::P3 = Object[{type_parameters => {a => Integer, b => String, c => Boolean}, attributes => {a => Integer, b => {type => String, value => 'x'}, c => {type => Boolean, value => true}}}]`
+const objTypesP2c = `type My::P2c = Object[{parent => My::P2, attributes => {z => {type => Integer, value => 0}}}]`
+
+// ParamObjectTexts: every subset of the type parameters given / left at default, by position and by name
+var paramObjectTexts = []string{
+	"My::P1", "My::P1[1]", "My::P1[{a => 1}]", "My::P1[Integer[1, 2]]",
+	"My::P2", "My::P2[1]", "My::P2[1, 'km']", "My::P2[default, 'km']", "My::P2[1, default]", "My::P2[{from => 1}]", "My::P2[{unit => 'km'}]", "My::P2[{from => 1, unit => 'km'}]",
+	"My::P2[{unit => 'km', from => 1}]", "My::P2[Integer[0, 9], Enum['m', 'km']]", "My::P2[default, Enum['m', 'km']]",
+	"My::P2c", "My::P2c[1]", "My::P2c[1, 'km']", "My::P2c[default, 'km']", "My::P2c[{unit => 'km'}]", "My::P2c[{from => 1}]",
+	"My::P3", "My::P3[{a => 1}]", "My::P3[{b => 'y'}]", "My::P3[{c => false}]", "My::P3[{a => 1, b => 'y'}]", "My::P3[{a => 1, c => false}]", "My::P3[{b => 'y', c => false}]",
+	"My::P3[{a => 1, b => 'y', c => false}]", "My::P3[1]", "My::P3[1, 'y']", "My::P3[1, 'y', false]", "My::P3[default, 'y']", "My::P3[default, default, false]", "My::P3[1, default, false]",
+}
+
 const objTypes3 = `type My::Lim = Object[{attributes => {
   name => String,
   max  => {type => Optional[Integer], value => 100},
@@ -716,7 +736,8 @@ func defineTypes(c px.Context) {
 	if _, ok := c.ParseType("My::Pt").(*types.TypeReferenceType); !ok {
 		return
 	}
-	px.AddTypes(c, types.Parse(objTypes).(px.Type), types.Parse(objTypes2).(px.Type), types.Parse(objTypes3).(px.Type))
+	px.AddTypes(c, types.Parse(objTypes).(px.Type), types.Parse(objTypes2).(px.Type), types.Parse(objTypes3).(px.Type),
+		types.Parse(objTypesP1).(px.Type), types.Parse(objTypesP2).(px.Type), types.Parse(objTypesP3).(px.Type), types.Parse(objTypesP2c).(px.Type))
 }
 
 func valOf(c px.Context, e sx.Sexp) px.Value {
@@ -1239,6 +1260,16 @@ func gen(g *core.G) {
 	}
 	for _, t := range []string{"Annotation", "Like", "TypeAlias", "Typealias", "Deferred", "My::Pt", "Pcore::AnyType"} { // core / loadable names outside the model
 		g.Emit("@rt-type " + hx(t) + " ()")
+	}
+	// parameterized Object types: every subset of type parameters given / defaulted, by position and by name, alone and
+	// nested (implementation only: nominal types are outside the model; their names are loadable here, so a failure counts)
+	for _, t := range paramObjectTexts {
+		g.Emit("@rt-type " + hx(t) + " ()")
+		if strings.Contains(t, "[") {
+			for _, w := range []string{"Array[%s]", "Array[%s, 1, 2]", "Struct[{a => %s}]", "Type[%s]", "Optional[%s]", "Variant[%s, Integer]", "Hash[String, %s]", "Tuple[%s, %s]", "Callable[[%s], %s]"} {
+				g.Emit("@rt-type " + hx(strings.Replace(w, "%s", t, -1)) + " ()")
+			}
+		}
 	}
 	// Struct: every key form x every value type (each answer of "accepts undef"), alone, after and before another member,
 	// and in the other surface forms of the parameter list; nested inside the old forms and the old forms inside it
